@@ -4,6 +4,8 @@ CONSTANTS
   IterateAllFields = FALSE
   SplitEverySpace = FALSE
   CacheWidths = FALSE
+  SharedEqualRecords = FALSE
+  ClassLevelOption = FALSE
   Emit = FALSE
   EmitOff = 0
 SPECIFICATION TSpec
